@@ -1,7 +1,7 @@
 (* Properties/C11.v -- Encoding is total and failures are classified correctly (the parts that are theorems). *)
-From Coq Require Import Arith NArith List Bool.
+From Coq Require Import Arith NArith List Bool Lia.
 From DM Require Import Generated.Symbols Generated.ModeTables Model.Outcome Model.SymbolList Model.Planner Model.Enc
-  Proofs.EncLocal Proofs.EncTop Proofs.EncAscii.
+  Model.RSEnc Model.Api Proofs.RSEncLen Proofs.EncLocal Proofs.EncTop Proofs.EncAscii.
 Import ListNotations.
 Local Open Scope N_scope.
 
@@ -65,6 +65,19 @@ Theorem C11_ascii_plan_total : forall optimize_fn data symbols modes,
   no_panic (encode_data_internal optimize_fn data symbols None modes false false).
 Proof. exact ascii_plan_total. Qed.
 Print Assumptions C11_ascii_plan_total.
+
+(* (v) the builder entry point adds the error codewords: that step cannot fail, so a panic of encode_eci is a panic of
+   the data layer *)
+Theorem C11_api_panic_source : forall sorter data symbols modes use_macros fnc1 eci p,
+  encode_eci sorter data symbols modes use_macros fnc1 eci = Panic p ->
+  encode_data_internal (optimize_fn sorter) data symbols eci modes use_macros fnc1 = Panic p.
+Proof.
+  intros so d sy m um f e p. unfold encode_eci.
+  destruct (encode_data_internal _ _ _ _ _ _ _) as [[cw s]| |] eqn:E; cbn [bind]; try discriminate; [|intros [= <-]; reflexivity].
+  apply encode_internal_ok in E. destruct E as (_ & L & _).
+  destruct (encode_error_total s cw ltac:(lia)) as (ecc & ->). discriminate.
+Qed.
+Print Assumptions C11_api_panic_source.
 
 (* NOT a theorem here: that the main loop's assertions never fire, i.e. that the encoder reaches every switch
    position the planner chose (planner/encoder agreement).  It is decided per case by running model and
